@@ -37,3 +37,53 @@ pub open spec fn woken(o: &Vm, n: &Vm, from_channel: Option<WaiterRef>) -> bool 
       } else { n.queued@ == o.queued@ && n.fiber.pool@ == o.fiber.pool@ },
   }
 }
+
+// ---- inline caches (C13) and class dispatch (C03) -----------------------------------------------------------
+impl InlineCache {
+  pub open spec fn prop_hit(&self, slot: int, c: ClassRef) -> Option<usize> {
+    match self.property@[slot] { Some(pc) => if pc.class == c { Some(pc.property_index) } else { None }, None => None }
+  }
+  pub open spec fn invoke_hit(&self, slot: int, c: ClassRef) -> Option<Value> {
+    match self.invoke@[slot] { Some(ic) => if ic.class == c { Some(ic.method) } else { None }, None => None }
+  }
+}
+
+/// A-slot: every cache slot of the module belongs to exactly one instruction site, which has one property name
+pub uninterp spec fn prop_site_name(slot: int) -> LyStr;
+pub uninterp spec fn invoke_site_name(slot: int) -> LyStr;
+pub uninterp spec fn invoke_site_is_super(slot: int) -> bool;
+
+/// the cache never disagrees with the slow path: a property entry is the field index the class table gives for the
+/// site's name; an invoke entry is the method the class table gives, and (for ordinary invoke sites) no instance of
+/// that class has a field of that name that would shadow it
+pub open spec fn coherent(cache: &InlineCache) -> bool {
+  &&& forall|s: int| 0 <= s < cache.property@.len() ==> (#[trigger] cache.property@[s] matches Some(pc) ==>
+        (field_index(pc.class, prop_site_name(s)) matches Some(k) && k as usize == pc.property_index))
+  &&& forall|s: int| 0 <= s < cache.invoke@.len() ==> (#[trigger] cache.invoke@[s] matches Some(ic) ==>
+        method_of(ic.class, invoke_site_name(s)) == Some(ic.method)
+        && (invoke_site_is_super(s) || field_index(ic.class, invoke_site_name(s)) is None))
+}
+
+pub open spec fn is_instance(v: Value) -> bool { v_is_obj(v) && o_kind(v_obj(v)) == ObjectKind::Instance }
+pub open spec fn inst_of(v: Value) -> InstRef { o_inst(v_obj(v)) }
+
+/// C03, the slow path of a method call `receiver.name(args)`: a field holding a callable shadows the method
+/// (the field's value is called and takes the receiver slot), else the most-derived method of the receiver's class
+pub open spec fn invoke_lookup(vm: &Vm, receiver: Value, name: LyStr) -> Option<(Value, bool)> {
+  if is_instance(receiver) && field_index(class_of_inst(inst_of(receiver)), name) is Some {
+    Some((vm.heap@[(inst_of(receiver), field_index(class_of_inst(inst_of(receiver)), name)->0 as int)], true))
+  } else {
+    match method_of(class_of_value(receiver), name) { Some(m) => Some((m, false)), None => None }
+  }
+}
+
+/// C03, the slow path of a property read `receiver.name`: the field, else the method bound to the receiver
+pub open spec fn get_lookup(vm: &Vm, receiver: Value, name: LyStr) -> Option<Value> {
+  if is_instance(receiver) && field_index(class_of_inst(inst_of(receiver)), name) is Some {
+    Some(vm.heap@[(inst_of(receiver), field_index(class_of_inst(inst_of(receiver)), name)->0 as int)])
+  } else {
+    match method_of(class_of_value(receiver), name) { Some(m) => Some(from_method(receiver, m)), None => None }
+  }
+}
+
+pub open spec fn set_top(s: Seq<Value>, i: int, v: Value) -> Seq<Value> { s.update(s.len() - 1 - i, v) }
